@@ -725,7 +725,7 @@ class PathSim:
                     # exit after k iterations
                     s_exit = s.fork() if literal is None else s
                     s_exit.loops = base_loops
-                    s_exit.events.append(Event('loop-exit', stmt, f, text='for-exit', extra=k, ep=s_exit.ep,
+                    s_exit.events.append(Event('loop-exit', stmt, f, text='for-exit', extra=k, value=itsym, ep=s_exit.ep,
                                                loops=base_loops))
                     out.extend(self.exec_block(stmt.orelse, s_exit, frame))
                     if literal is not None:
@@ -1260,6 +1260,11 @@ class PathSim:
                         acc.append(kw.pop(ps_[len(acc)]))
                 sym = ast.Call(func=fsym, args=acc,
                                keywords=[ast.keyword(arg=(None if k == '**' else k), value=v) for k, v in kw.items()])
+                if isinstance(fn, ast.Name) and fn.id == 'len' and len(acc) == 1 and not kw and self.repo.lookup(f.module, 'len') is None:
+                    known = _literal_elts(acc[0]) if not isinstance(acc[0], (ast.Tuple,)) or True else None
+                    if known is not None and (isinstance(acc[0], (ast.List, ast.Tuple)) or hasattr(acc[0], '_elts') or isinstance(acc[0], ast.Name)):
+                        out.append((ast.Constant(value=len(known)), s2, None))      # the length of a list known element by element
+                        continue
                 pure = self._is_pure_call(e, site)
                 g0 = next(iter(targets)) if len(targets) == 1 else None
                 will_inline = g0 is not None and (g0 in self.inline or (self.auto_inline and is_new_function(g0) and not any(isinstance(x, (ast.Yield, ast.YieldFrom)) for x in ast.walk(g0.node)))) \
@@ -1288,6 +1293,14 @@ class PathSim:
                     cur_ = s2.env.get((frame[1], recv.id))
                     if isinstance(cur_, ast.List):
                         s2.env[(frame[1], recv.id)] = ast.List(elts=list(reversed(cur_.elts)), ctx=ast.Load())
+                if isinstance(recv, ast.Name) and isinstance(fn, ast.Attribute) and fn.attr in MUTATORS and not (
+                        (fn.attr in ('append', 'extend') and len(acc) == 1 and not kw and (fn.attr == 'append' or isinstance(acc[0], (ast.List, ast.Tuple)))) or
+                        (fn.attr == 'reverse' and not acc and not kw)):
+                    cur_ = s2.env.get((frame[1], recv.id))
+                    if isinstance(cur_, (ast.List, ast.ListComp)) and not (isinstance(cur_, ast.List) and any(isinstance(x_, ast.Starred) for x_ in cur_.elts)):
+                        # mutated in a way that is not followed element by element: the contents are no longer known
+                        unk = ast.List(elts=[ast.Starred(value=ast.Name(id='<contents of %s>' % recv.id, ctx=ast.Load()), ctx=ast.Load())], ctx=ast.Load())
+                        s2.env[(frame[1], recv.id)] = unk
                 # exceptions the rule wants modelled
                 if self.may_raise is not None:
                     for et in (self.may_raise(evn) or ()):
@@ -1461,7 +1474,7 @@ class PathSim:
                     s_exit.env.pop(key, None)
                 else:
                     s_exit.env[key] = saved
-                s_exit.events.append(Event('loop-exit', loop, f, text='for-exit', extra=k, ep=s_exit.ep, loops=base_loops))
+                s_exit.events.append(Event('loop-exit', loop, f, text='for-exit', extra=k, value=itsym, ep=s_exit.ep, loops=base_loops))
                 # on this path the comprehension's value is known element by element: what its iterations appended
                 res = clone_ast(sym)
                 res._elts = [ev_.args[0] for ev_ in s_exit.events[n_ev0:] if ev_.kind == 'call' and ev_.ftext == '<listcomp>.append' and ev_.recv is sym]
@@ -1525,7 +1538,7 @@ class PathSim:
                     s_exit.env.pop(key, None)
                 else:
                     s_exit.env[key] = saved
-                s_exit.events.append(Event('loop-exit', loop, f, text='for-exit', extra=k, ep=s_exit.ep, loops=base_loops))
+                s_exit.events.append(Event('loop-exit', loop, f, text='for-exit', extra=k, value=itsym, ep=s_exit.ep, loops=base_loops))
                 out.append((not is_any, s_exit, None))
                 if k >= self.unroll:
                     continue
